@@ -15,7 +15,7 @@ REAL = ['onl.netdev.wire.Wire', 'onl.netdev.wire.Cable', 'onl.sim kernel']
 STUBS = ['injector, taps, endpoints, scripted delay distribution, ScriptedRandom replacing onl.netdev.wire.random']
 ASSUMPTIONS = ['the n-th packet taken from the wire consumes the next loss draw (if a loss rate is set) and, if kept, the '
                'next delay draw; a packet is lost iff draw < p', 'FLOAT workloads: relative tolerance 1e-9 on delivery times']
-PROBES = ['same_object_reenters', 'draw_near_loss_rate', 'two_sources_same_ids', 'later_packet_shorter_delay', 'zero_delay', 'lost_between_delivered', 'held_back_by_predecessor', 'cable',
+PROBES = ['big_clock', 'late_out', 'same_object_reenters', 'draw_near_loss_rate', 'two_sources_same_ids', 'later_packet_shorter_delay', 'zero_delay', 'lost_between_delivered', 'held_back_by_predecessor', 'cable',
           'loss_rate_one', 'loss_rate_zero']
 
 
@@ -49,6 +49,15 @@ def gen(rng, tier):
             if rng.random() < 0.3:
                 wl[k] = [wl[k][0], wl[k][1], wl[k][2], 0, rng.randrange(k)]
     case = {'engine': 'N', 'mode': mode, 'delays': delays, 'loss': loss, 'loss_draws': draws, 'workload': wl}
+    r0 = rng.random()
+    if mode == 'GRID' and r0 < 0.12:
+        case['t0'] = 2.0 ** 40              # a long-running simulation: delays are tiny compared with the clock
+    elif mode == 'GRID' and r0 < 0.2:
+        # an integer clock (ticks) far from zero, integer instants and delays
+        case['t0'] = rng.choice([10 ** 12, 2 ** 60 + 1])
+        case['ticks'] = 8                    # every instant and delay of the case is multiplied by 8 and made an int
+    if rng.random() < 0.15 and not case.get('cable'):
+        case['late_out'] = True             # the wire's `out` is attached after the first packets have entered
     if rng.random() < 0.3:
         # a second source on the same wire: its packets carry the same ids 1, 2, ... as the first one's
         case['workload_b'] = [[t, 2, 200] for t in gen_times(rng, rng.randint(1, 15), mode)]
@@ -77,10 +86,19 @@ class ViaOut:
 
 
 def run(case):
-    w = NetWorld()
+    t0 = case.get('t0', 0)
+    w = NetWorld(t0)
     env = w.env
     saved = wire_mod.random
     viol = []
+
+    ticks = (case.get('ticks') or 1) if isinstance(t0, int) and t0 else None
+
+    def tk(x):
+        return int(x * ticks) if ticks else x
+
+    def shift(wl):
+        return [tuple([t0 + tk(x[0])] + list(x[1:])) for x in wl]
     try:
         sr = ScriptedRandom(w, 'loss', case.get('loss_draws', []))
         _orig = sr.uniform
@@ -93,7 +111,7 @@ def run(case):
             return a + (b - a) * v
         sr.uniform = uniform
         wire_mod.random = sr
-        dist = Script(w, 'delay', case.get('delays', [1]), 1)
+        dist = Script(w, 'delay', [tk(d) for d in case.get('delays', [1])], 1)
         wires = {}
         if case.get('cable'):
             cable = Cable(env, dist, case.get('loss'))
@@ -109,17 +127,30 @@ def run(case):
                 wr.out = OutTap(w, nm, wr, nx)
                 dev.out = InTap(w, nm, wr)
                 wires[nm] = wr
-            start_injector(w, ViaOut(d1), [tuple(x) for x in case.get('workload', [])])
-            start_injector(w, ViaOut(d2), [tuple(x) for x in case.get('workload2', [])])
+            start_injector(w, ViaOut(d1), shift(case.get('workload', [])))
+            start_injector(w, ViaOut(d2), shift(case.get('workload2', [])))
         else:
             wr = Wire(env, dist, case.get('loss'))
             w.pnames[wr.action] = 'w1'
-            wr.out = OutTap(w, 'w1', wr, Recorder(w, 'sink'))
+            outtap = OutTap(w, 'w1', wr, Recorder(w, 'sink'))
+            delays_ = case.get('delays', [1]) or [1]
+            if case.get('late_out') and min(tk(d) for d in delays_) > 0 and case.get('workload'):
+                # attached in the instant of the first arrival (by another process), i.e. before anything is due
+                first = min(tk(x[0]) for x in case['workload'] + (case.get('workload_b') or []))
+
+                def attach():
+                    if first > 0:
+                        yield env.timeout(first)
+                    yield env.timeout(0)
+                    wr.out = outtap
+                env.process(attach())
+            else:
+                wr.out = outtap
             wires['w1'] = wr
             tap = InTap(w, 'w1', wr)
-            start_injector(w, tap, [tuple(x) for x in case.get('workload', [])])
+            start_injector(w, tap, shift(case.get('workload', [])))
             if case.get('workload_b'):
-                start_injector(w, tap, [tuple(x) for x in case.get('workload_b', [])], src='srcB')
+                start_injector(w, tap, shift(case.get('workload_b', [])), src='srcB')
         w.run(max_steps=20000)
     finally:
         wire_mod.random = saved
@@ -132,6 +163,10 @@ def run(case):
         nontrivial = nontrivial or nt
     if case.get('cable'):
         stats['cable'] = 1
+    if case.get('t0'):
+        stats['big_clock'] = 1
+    if case.get('late_out'):
+        stats['late_out'] = 1
     if case.get('workload_b') and not case.get('cable'):
         stats['two_sources_same_ids'] = 1
     for r in w.log:
